@@ -115,6 +115,8 @@ pub struct Rx {
 
 pub struct Reader {
     pub rx: Arc<Mutex<Rx>>,
+    /// while set the thread does not read (a slow application / target)
+    pub pause: Arc<AtomicBool>,
     stop: Arc<AtomicBool>,
     handle: Option<std::thread::JoinHandle<()>>,
 }
@@ -123,13 +125,18 @@ impl Reader {
     pub fn spawn(mut s: TcpStream, prefix: Vec<u8>, tag: u64) -> Reader {
         let rx = Arc::new(Mutex::new(Rx::default()));
         let stop = Arc::new(AtomicBool::new(false));
-        let (rx2, stop2) = (rx.clone(), stop.clone());
+        let pause = Arc::new(AtomicBool::new(false));
+        let (rx2, stop2, pause2) = (rx.clone(), stop.clone(), pause.clone());
         s.set_read_timeout(Some(Duration::from_millis(50))).ok();
         let handle = std::thread::spawn(move || {
             let mut buf = vec![0u8; 65536];
             loop {
                 if stop2.load(Ordering::Relaxed) {
                     return;
+                }
+                if pause2.load(Ordering::Relaxed) {
+                    std::thread::sleep(Duration::from_millis(2));
+                    continue;
                 }
                 match s.read(&mut buf) {
                     Ok(0) => {
@@ -168,7 +175,7 @@ impl Reader {
                 }
             }
         });
-        Reader { rx, stop, handle: Some(handle) }
+        Reader { rx, pause, stop, handle: Some(handle) }
     }
     pub fn snap(&self) -> Rx {
         self.rx.lock().unwrap().clone()
